@@ -239,6 +239,11 @@ def main(tier, only=None):
         specs.append({'base': base, 'fmt': fmt, 'txns': [D('A', 'B'), {'items': [['R', ['A']], ['D', ['C', 'eB']]]}, c03.TAIL]})
         specs.append({'base': base, 'fmt': fmt, 'txns': [big, c03.TAIL]})                     # more replayed blocks than the 8-entry unix_io cache: evictions before the sync
         specs.append({'base': base, 'fmt': fmt, 'txns': [big, {'items': [['R', list('ABCD')], ['D', list('EFGHIJKL')]]}, c03.TAIL]})
+        # a long revoked tail: after the last block that is actually replayed the replay pass still reads >= 8 further log blocks (descriptors and commits of
+        # transactions whose only block is revoked by the last one), so every replayed block has left the 8-entry cache through an eviction (a plain pwrite)
+        # and the cache is clean when recovery syncs: the sync must still reach the device
+        for ntail in (4, 6):
+            specs.append({'base': base, 'fmt': fmt, 'txns': [D('A', 'B')] + [D('C') for _ in range(ntail)] + [{'items': [['R', ['C']]]}, c03.TAIL]})
         if FMT_HAS_CSUM(fmt):
             # journals whose replay reports an error after blocks were already replayed (a logged block fails its tag checksum, a later commit block
             # fails its checksum): the replayed blocks still have to be durable before the journal is emptied
@@ -267,7 +272,7 @@ def main(tier, only=None):
         for b in bad[:2]:
             ck.violation('%s :: %s :: %s' % (c03.cid(spec), fe, b[:60]), {'spec': spec, 'frontend': fe, 'what': b, 'all': bad[:10]})
     ck.add(evaluations=nruns, distinct_nontrivial=ncrash, states=ncrash, transitions=nruns, traces_validated_against_impl=len(jobs),
-           rule='journal (xck.jbd2 writer; all T<=2 shapes over two targets, 12-target transactions that overflow the block cache, wrapped log, journals with a tag- or commit-checksum failure in a later transaction; three formats) x front-end {e2fsck -y -E journal_only, e2fsck -fy, debugfs jr}: '
+           rule='journal (xck.jbd2 writer; all T<=2 shapes over two targets, 12-target transactions that overflow the block cache, long fully-revoked tails that leave the cache clean at the sync, wrapped log, journals with a tag- or commit-checksum failure in a later transaction; three formats) x front-end {e2fsck -y -E journal_only, e2fsck -fy, debugfs jr}: '
                 'the pwrite/fsync trace of one recovery is recorded, then every crash image = every trace prefix x every subset of the writes issued since the last completed fsync lost (all subsets up to 10 pending writes, else <=2 lost / <=2 surviving); '
                 'distinct_nontrivial = distinct crash images; oracle I1 (journal empty or needs_recovery clear => all replayed blocks already final) on each image, I2 (re-running recovery reproduces the uninterrupted result, journal empty, flag clear)',
            samples=[c03.cid(specs[0]) + ' :: ' + fes[0], c03.cid(specs[1]) + ' :: ' + fes[-1]])
